@@ -287,7 +287,7 @@ theorem C08_router_uses_best_route (fuel : Nat) (st : St) (n i : Nat) (f : Frame
       sendFrame (fuel + 2) (st.emit (.hop n f.id f.ttl)) n e.ifc (f.dec.stamp oif.mac e.mac) := by
   have hreq : ∀ k, sendArpReq (k + 1) st n r.nextHop = st := by
     intro k; simp only [sendArpReq, hn, he, Option.isSome_some, if_true]
-  simp only [routerProcess, hb, Bool.false_eq_true, if_false, arpIfc, arpMac, hn, hmiss, hk, hoff, routerArpNext,
+  simp only [routerProcess, hb, Bool.false_eq_true, if_false, arpIfc, arpMac, hn, hmiss, hk, hoff, arpNext, routerArpNext,
     hbest, hreq, he, hif, hen, hnot, httl, Route.Result.nextHop?, beq_self_eq_true, if_true, Bool.not_false, Bool.not_true,
     Option.isSome_none, Bool.and_false]
 
@@ -303,7 +303,7 @@ theorem C08_router_uses_default_route (fuel : Nat) (st : St) (n i : Nat) (f : Fr
       sendFrame (fuel + 2) (st.emit (.hop n f.id f.ttl)) n e.ifc (f.dec.stamp oif.mac e.mac) := by
   have hreq : ∀ k, sendArpReq (k + 1) st n nh = st := by
     intro k; simp only [sendArpReq, hn, he, Option.isSome_some, if_true]
-  simp only [routerProcess, hb, Bool.false_eq_true, if_false, arpIfc, arpMac, hn, hmiss, hk, hoff, routerArpNext,
+  simp only [routerProcess, hb, Bool.false_eq_true, if_false, arpIfc, arpMac, hn, hmiss, hk, hoff, arpNext, routerArpNext,
     hbest, hreq, he, hif, hen, hnot, httl, Route.Result.nextHop?, beq_self_eq_true, if_true, Bool.not_false, Bool.not_true,
     Option.isSome_none, Bool.and_false]
 
@@ -313,7 +313,7 @@ theorem C08_router_no_route_drops (fuel : Nat) (st : St) (n i : Nat) (f : Frame)
     (hmiss : nd.arpGet f.dstIp = none) (hoff : firstIn nd.ifaces f.dstIp 0 = none)
     (hbest : findBestRoute nd.routes f.dstIp = .noRoute) :
     routerProcess (fuel + 2) st n i f = (st, f) := by
-  simp only [routerProcess, hb, Bool.false_eq_true, if_false, arpIfc, arpMac, hn, hmiss, hk, hoff, routerArpNext,
+  simp only [routerProcess, hb, Bool.false_eq_true, if_false, arpIfc, arpMac, hn, hmiss, hk, hoff, arpNext, routerArpNext,
     hbest, beq_self_eq_true, if_true, Bool.not_false, Option.isSome_none, Bool.and_false]
 
 /-- with the repaired `process_frame`, a layer-2 broadcast that is not for one of the router's own addresses is never
@@ -322,62 +322,36 @@ theorem C08_router_never_forwards_broadcast (fuel : Nat) (st : St) (n i : Nat) (
     routerProcess (fuel + 1) st n i f = (st, f) := by
   simp only [routerProcess, hb, beq_self_eq_true, if_true]
 
-/-! ### addressee: hosts accept unicast frames by MAC alone, so correctness rests on how frames are addressed -/
+/-! ### addressee, per hop (the run-level theorems are in `Props/C08Addressee.lean`) -/
 
-/-- MAC addresses are unique over all interfaces. -/
-def UniqueMacs (st : St) : Prop :=
-  ∀ (n m i j : Nat) (a b : Iface), st.iface? n i = some a → st.iface? m j = some b → a.mac = b.mac → n = m ∧ i = j
+/-- (repaired `NIC.receive_frame`) a host NIC passes a unicast frame up only if it is for the NIC's MAC address AND for an
+IP address of this host; a broadcast only for the NIC's own or its subnet's broadcast address. -/
+theorem C08_host_accepts_only_own_address (nd : Node) (ifc : Iface) (f : Frame) (h : hostAccepts nd ifc f = true) :
+    (f.dstMac = bcastMac ∧ (f.dstIp = ifc.ip ∨ f.dstIp = ifc.bcastAddr)) ∨
+    (f.dstMac ≠ bcastMac ∧ f.dstMac = ifc.mac ∧ ∃ own ∈ nd.ifaces, own.ip = f.dstIp) := by
+  unfold hostAccepts at h
+  by_cases hb : f.dstMac = bcastMac
+  · left
+    simp only [hb, beq_self_eq_true, if_true, Bool.or_eq_true, beq_iff_eq] at h
+    exact ⟨hb, h⟩
+  · right
+    have hne : (f.dstMac == bcastMac) = false := by simpa using hb
+    simp only [hne, Bool.false_eq_true, if_false, Bool.and_eq_true, beq_iff_eq] at h
+    refine ⟨hb, h.1, ?_⟩
+    cases hw : ifaceWithIp nd.ifaces f.dstIp with
+    | none => rw [hw] at h; simp at h
+    | some own =>
+      unfold ifaceWithIp at hw
+      exact ⟨own, List.mem_of_find?_eq_some hw, by simpa using List.find?_some hw⟩
 
-/-- the destination MAC of `f` belongs to an interface that carries the destination IP address, or to a router. -/
-def WellAddressed (st : St) (f : Frame) : Prop :=
-  ∃ (m j : Nat) (b : Iface) (ndm : Node), st.node? m = some ndm ∧ st.iface? m j = some b ∧ b.mac = f.dstMac ∧
-    (b.ip = f.dstIp ∨ ndm.kind = .router)
-
-/-- a cache entry is sound for destination `dst`: its MAC belongs to the interface carrying `dst`, or to a router
-(routers and hosts learn `src_ip ↦ src_mac` from routed frames, so remote addresses map to the last router). -/
-def EntrySoundFor (st : St) (e : ArpEntry) (dst : Ip) : Prop :=
-  ∃ (m j : Nat) (b : Iface) (ndm : Node), st.node? m = some ndm ∧ st.iface? m j = some b ∧ b.mac = e.mac ∧
-    (b.ip = dst ∨ ndm.kind = .router)
-
-/-- FULL statement (kept visible, NOT proved): in every run of the model from a state with unique addresses whose
-caches are sound, software is handed a unicast frame only on the node that owns its destination address. What is
-missing is the preservation of cache soundness by every processing step of the interpreter. The rig evaluates exactly
-this statement on every generated run of the implementation (oracle (c) of R-net). -/
-def C08_FullUnicastOnlyAddressee : Prop :=
-  ∀ (fuel : Nat) (st : St) (n : Nat) (dst : Ip) (pl : Pl),
-    UniqueMacs st →
-    (∀ (k : Nat) (nd : Node) (e : ArpEntry), st.node? k = some nd → e ∈ nd.arp → EntrySoundFor st e e.ip) →
-    ∀ (m fid : Nat) (ip : Ip), Ev.sw m fid ip false ∈ (sendIcmp fuel st n dst pl).log →
-      ∃ (j : Nat) (b : Iface), (sendIcmp fuel st n dst pl).iface? m j = some b ∧ b.ip = ip
-
-/-- PARTIAL (per hop, static state): a host NIC accepts a well-addressed unicast frame only if it carries the frame's
-destination IP address. -/
-theorem C08_unicast_only_addressee_partial (st : St) (n i : Nat) (nd : Node) (ifc : Iface) (f : Frame)
-    (hn : st.node? n = some nd) (hk : nd.kind = .host) (hi : st.iface? n i = some ifc)
-    (hu : UniqueMacs st) (hw : WellAddressed st f) (huni : f.dstMac ≠ bcastMac)
-    (hacc : hostAccepts ifc f = true) : ifc.ip = f.dstIp := by
-  unfold hostAccepts at hacc
-  have hne : (f.dstMac == bcastMac) = false := by simpa using huni
-  simp only [hne, Bool.false_eq_true, if_false, beq_iff_eq] at hacc
-  obtain ⟨m, j, b, ndm, hm, hb, hmac, hor⟩ := hw
-  obtain ⟨rfl, rfl⟩ := hu m n j i b ifc hb hi (hmac.trans hacc)
-  rw [hi] at hb
-  have hbi : b = ifc := by simpa using hb.symm
-  rw [hn] at hm
-  have hnd : ndm = nd := by simpa using hm.symm
-  subst hbi hnd
-  rcases hor with h | h
-  · exact h
-  · rw [hk] at h; cases h
-
-/-- PARTIAL (per hop, static state): the header rewrite of `process_frame` / `route_frame` with the MAC of a cache
-entry that is sound for the frame's destination re-establishes well-addressedness; TTL and addresses as in
-`C08_ttl_strict`. -/
-theorem C08_router_hop_keeps_well_addressed (st : St) (f : Frame) (src : Mac) (e : ArpEntry)
-    (hs : EntrySoundFor st e f.dstIp) : WellAddressed st (f.dec.stamp src e.mac) ∧ (f.dec.stamp src e.mac).dstIp = f.dstIp := by
-  obtain ⟨m, j, b, ndm, hm, hb, hmac, hor⟩ := hs
-  exact ⟨⟨m, j, b, ndm, hm, hb, hmac, hor⟩, rfl⟩
-
+/-- a router passes a frame up to its own software only for one of its own addresses
+(`check_send_frame_to_session_manager`); everything else goes to `process_frame`. -/
+theorem C08_router_software_only_own_address (fuel : Nat) (st : St) (n i : Nat) (f : Frame) (nd : Node) (ifc : Iface)
+    (hn : st.node? n = some nd) (hi : st.iface? n i = some ifc) (hon : nd.on = true)
+    (hnot : ifaceWithIp nd.ifaces f.dstIp = none) :
+    routerRecv (fuel + 1) st n i f =
+      routerProcess fuel (st.modNode n (fun nd => nd.addArp f.srcIp f.srcMac i)) n i f := by
+  simp only [routerRecv, hn, hi, hon, Bool.not_true, Bool.false_eq_true, if_false, hnot]
 
 /-! ### non-vacuity: a concrete network (host A — host B on one link; A also has a default gateway) -/
 
@@ -403,25 +377,6 @@ example : (ping 40 exSt 0 ipB 1).2 = true := by decide +kernel
 /-- … and an exhausted frame is dropped at B's NIC: with TTL 1 the request is logged but never reaches software. -/
 example : (ifaceRecv 5 exSt 1 0 { id := 9, srcMac := 1, dstMac := 2, srcIp := ipA, dstIp := ipB, ttl := 1, pl := .echoReq 3 }).1.log =
     [.rx 1 0 9 1] := by decide +kernel
-example : UniqueMacs exSt := by
-  intro n m i j a b ha hb hab
-  match n, m, i, j with
-  | 0, 0, 0, 0 => exact ⟨rfl, rfl⟩
-  | 1, 1, 0, 0 => exact ⟨rfl, rfl⟩
-  | 0, 1, 0, 0 =>
-    simp only [St.iface?, exSt, exA, exB, List.getElem?_cons_zero, List.getElem?_cons_succ, Option.bind_some, Option.some.injEq] at ha hb
-    subst ha hb; simp at hab
-  | 1, 0, 0, 0 =>
-    simp only [St.iface?, exSt, exA, exB, List.getElem?_cons_zero, List.getElem?_cons_succ, Option.bind_some, Option.some.injEq] at ha hb
-    subst ha hb; simp at hab
-  | 0, _, i + 1, _ => simp [St.iface?, exSt, exA] at ha
-  | 1, _, i + 1, _ => simp [St.iface?, exSt, exB] at ha
-  | n + 2, _, _, _ => simp [St.iface?, exSt] at ha
-  | _, 0, _, j + 1 => simp [St.iface?, exSt, exA] at hb
-  | _, 1, _, j + 1 => simp [St.iface?, exSt, exB] at hb
-  | _, m + 2, _, _ => simp [St.iface?, exSt] at hb
-example : WellAddressed exSt { id := 0, srcMac := 1, dstMac := 2, srcIp := ipA, dstIp := ipB, ttl := 64, pl := .echoReq 3 } :=
-  ⟨1, 0, _, exB, rfl, rfl, rfl, Or.inl rfl⟩
 def exRoute : Route.Route := { addr := 0xAC100000#32, mask := 0xFFFF0000#32, nextHop := 0x0A000002#32, metric := 0 }
 def exR : Node :=
   { kind := .router,
